@@ -1520,6 +1520,11 @@ class ListNode(SyntaxNodeBase):
                 and not isinstance(self.nodes[i + 1], PaddingNode)
                 and not node.never_pad
             ):
+                # the width worked out for an entry counts the blank after it: an entry whose width was
+                # worked out before it got this blank (the list was formatted when it was still the last
+                # entry) is given the same width as one that gets it first
+                if node._is_reversed:
+                    node._formatter["value_length"] += 1
                 node.padding = PaddingNode(" ")
             if isinstance(last_node, ShortcutNode) and isinstance(node, ShortcutNode):
                 text = node.format(last_node)
